@@ -167,6 +167,85 @@ def regen_facts(ctx=None):
         lock.close()
 
 
+LOCKS_DIR = os.path.join(VERIF, "go", "locks")
+LOCKS_LEAN = os.path.join(LEAN_DIR, "Helios", "Generated", "Locks.lean")
+
+
+def regen_locks(ctx=None):
+    """Tie B for C12: re-run the lockset / lock-order analysis on /repo's current source and
+    (re)write Helios/Generated/Locks.lean when the rows changed."""
+    exe = os.path.join(LOCKS_DIR, "locks")
+    lock = _lake_lock()
+    try:
+        if not os.path.exists(exe) or os.path.getmtime(exe) < os.path.getmtime(os.path.join(LOCKS_DIR, "main.go")):
+            p = subprocess.run(["go", "build", "-o", "locks", "."], cwd=LOCKS_DIR, env=GOENV,
+                               stdout=subprocess.PIPE, stderr=subprocess.STDOUT, text=True, timeout=600)
+            if p.returncode != 0:
+                raise BuildError("lock analyser does not build: " + p.stdout[-1500:])
+        p = subprocess.run([exe, REPO], stdout=subprocess.PIPE, stderr=subprocess.PIPE, text=True, timeout=300, env=GOENV)
+        if p.returncode != 0 or "namespace Helios.Generated.Locks" not in p.stdout:
+            raise BuildError("lock analyser failed: " + p.stderr[-1500:])
+        old = open(LOCKS_LEAN, encoding="utf-8").read() if os.path.exists(LOCKS_LEAN) else ""
+        if old != p.stdout:
+            with open(LOCKS_LEAN, "w", encoding="utf-8") as f:
+                f.write(p.stdout)
+            return True
+        return False
+    finally:
+        lock.close()
+
+
+def _theorem_blocks(path):
+    """[(short name, namespace-qualified name, first line, last line, text)] of a Lean file"""
+    lines = open(path, encoding="utf-8").read().split("\n")
+    ns, starts = [], []
+    for i, l in enumerate(lines, 1):
+        m = re.match(r"namespace\s+(\S+)", l)
+        if m:
+            ns.append(m.group(1))
+        m = re.match(r"end\s+(\S+)", l)
+        if m and ns and ns[-1] == m.group(1):
+            ns.pop()
+        m = re.match(r"(?:private\s+|protected\s+|@\[[^\]]*\]\s*)*(?:theorem|lemma|def|example|instance|abbrev)\s+(\S+)?", l)
+        if m:
+            starts.append((i, m.group(1) or "", ".".join(ns)))
+    out = []
+    for k, (i, name, nsq) in enumerate(starts):
+        j = starts[k + 1][0] - 1 if k + 1 < len(starts) else len(lines)
+        out.append((name, (nsq + "." + name) if nsq else name, i, j, "\n".join(lines[i - 1:j])))
+    return out
+
+
+_FAILED_FILES = {}
+
+
+def _blame(path, errs, theorems):
+    """errors (line, msg) of one Lean file -> {qualified theorem: reason}, closed under use"""
+    blocks = _theorem_blocks(path)
+    _FAILED_FILES[path] = [b[1] for b in blocks]
+    bad = {}
+    for line, msg in errs:
+        for name, q, i, j, _ in blocks:
+            if i <= line <= j and name:
+                bad.setdefault(q, "%s:%d %s" % (os.path.relpath(path, LEAN_DIR), line, msg[:300]))
+    changed = True
+    while changed:
+        changed = False
+        for name, q, i, j, text in blocks:
+            if q in bad or not name:
+                continue
+            for b in list(bad):
+                if re.search(r"\b%s\b" % re.escape(b.split(".")[-1]), text):
+                    bad[q] = "uses %s, which no longer checks" % b
+                    changed = True
+                    break
+    return {q: why for q, why in bad.items() if q in theorems}
+
+
+def _in_failed_module(th, blamed):
+    return any(th in names for names in _FAILED_FILES.values())
+
+
 def prove(ctx, modules, theorems):
     """Build the proof modules and audit the axioms of every property theorem.
     Records one obligation per theorem in ctx.obligations."""
@@ -175,16 +254,26 @@ def prove(ctx, modules, theorems):
         ctx.notes.append("facts regenerated from the source differ from the committed Generated/Facts.lean")
     ok, log = lake_build(list(modules) + ["driver"])
     build_detail = ""
+    blamed = {}      # theorem -> reason, for theorems of modules that no longer build
     if not ok:
-        # find out which modules still build; theorems of the others are undischarged
+        # find out which modules still build; in the others, blame the theorems whose text
+        # encloses an error (and the theorems that use those); the rest elaborated fine but
+        # cannot be axiom-audited until the module builds again
         failed = re.findall(r"error: (Helios/[^:]+):(\d+):\d+: (.*)", log)
         build_detail = "; ".join("%s:%s %s" % f for f in failed[:5]) or log[-1500:]
         good = []
         for m in modules:
-            ok1, _ = lake_build([m])
+            ok1, log1 = lake_build([m])
             if ok1:
                 good.append(m)
-        if not good:
+                continue
+            errs = re.findall(r"error: (Helios/[^:]+):(\d+):\d+: (.*)", log1)
+            for path in sorted(set(e[0] for e in errs)):
+                blamed.update(_blame(os.path.join(LEAN_DIR, path), [(int(e[1]), e[2]) for e in errs if e[0] == path], theorems))
+            if not errs:
+                for th in theorems:
+                    blamed.setdefault(th, "module %s does not build: %s" % (m, log1[-300:]))
+        if not good and not blamed:
             for th in theorems:
                 ctx.obligations.append((th, False, "lake build failed: " + build_detail))
             return False
@@ -210,9 +299,11 @@ def prove(ctx, modules, theorems):
                 ctx.obligations.append((th, False, "forbidden axioms: " + ",".join(bad)))
             else:
                 ctx.obligations.append((th, True, "axioms: " + ",".join(axs)))
+        elif build_detail and th not in blamed and _in_failed_module(th, blamed):
+            ctx.obligations.append((th, True, "elaborates; axiom audit skipped because another theorem of its module fails"))
         else:
             allok = False
-            why = ("its module no longer builds: " + build_detail) if build_detail else ("theorem not found / audit failed: " + out[-400:])
+            why = blamed.get(th) or (("its module no longer builds: " + build_detail) if build_detail else ("theorem not found / audit failed: " + out[-400:]))
             ctx.obligations.append((th, False, why))
     hits = grep_forbidden(modules)
     if hits:
